@@ -1,6 +1,5 @@
 """C11 Fair-share allocation is max-min fair — correspondence of FairShare.fairShare with the real
 batch.driver.instance_collection.pool.PoolScheduler._compute_fair_share, oracle = exact rational water-filling."""
-import ast
 import json
 import os
 from fractions import Fraction
@@ -29,13 +28,6 @@ def _drive(coro):
 def _njobs(cores):
     """a job count consistent with a core total (n_*_jobs are 32-bit INT columns)"""
     return min((cores + 249) // 250, 1000)
-
-
-class _FakePool:
-    name = 'standard'
-
-    def __str__(self):
-        return 'pool standard'
 
 
 # ---- exact rational water-filling (the property's reference; written independently of the scheduler's loop) -------------
@@ -86,7 +78,8 @@ class C11(Prop):
     budget = {'quick': 30000, 'thorough': 500000}
     search_budget = {'quick': 20000, 'thorough': 300000}
     rule = ('case = (free cores, [(running, ready)] for 0..12 users, the users\' counters sharded over 1..16 tokens of user_inst_coll_resources '
-            'with negative shards that sum to the totals, rows of other instance collections, users whose shards cancel to zero); values from small/tie-heavy pools, multiples of 250 mcpu and up to 2^40; '
+            'with negative shards that sum to the totals, rows of other instance collections, users whose shards cancel to zero; the free cores are held by 1..6 real Instance workers of a real Pool, some oversubscribed '
+            '(negative free cores), some unhealthy (not counted)); values from small/tie-heavy pools, multiples of 250 mcpu and up to 2^40; '
             'free drawn from {<=0, 1..n, a random point of a random segment between breakpoints, half-integer rounding boundaries of the final '
             'division, total demand +-1, more than demand}; non-trivial = free > 0, >= 2 users and demand > free (the loop must stop part-way); '
             'distinct by full case')
@@ -95,7 +88,8 @@ class C11(Prop):
                'IEEE-754: int(free / n + 0.5) equals trunc((2*free + n) / (2n)) for the magnitudes used (<= 2^44)']
     assumptions = ['per user the token shards of user_inst_coll_resources sum to non-negative counters (C01), a user without jobs has no cores; '
                    'individual shards may be negative',
-                   'free_cores_mcpu is an integer (sum of per-instance integers), |values| <= 2^44 so float division is exact enough']
+                   'the pool\'s free cores are the sum of free_cores_mcpu over its healthy workers (active, <= 1 failed request), negative '
+                   'workers included; integers, |values| <= 2^44 so float division is exact enough']
 
     how = 'unset'
 
@@ -112,38 +106,56 @@ class C11(Prop):
         self.mdb = minisql.from_repo(repo, _random.Random(0), lambda: 1.7e9)
         self.loop = asyncio.new_event_loop()
         self.db = self.loop.run_until_complete(fakepool.make_database(self.mdb))
-        fn = None
-        try:
-            import batch.driver.instance_collection.pool as pool_mod
-            cls = pool_mod.PoolScheduler
-            self.obj = cls.__new__(cls)
-            fn = cls._compute_fair_share
-            self.how = 'bound method of the imported PoolScheduler (bare object); real gear Database over minisql executes the query'
-        except Exception as e:  # narrower import surface: the same source text, taken by AST (validated fallback)
-            fn, self.obj = self._by_ast(repo)
-            self.how = f'method source taken by AST from pool.py and exec-ed (import failed: {type(e).__name__}); query run by minisql'
-        self.obj.db = self.db
-        self.obj.pool = _FakePool()
-        self.fn = fn
+        # the real object graph the scheduler reads its free cores from: Pool (real __init__, which builds its real PoolScheduler),
+        # real Instance objects added with the real Pool.add_instance (which decides who is healthy)
+        from batch.driver.instance import Instance
+        from batch.driver.instance_collection.pool import Pool
+        from batch.inst_coll_config import PoolConfig
+        from gear import CommonAiohttpAppKeys
+        from hailtop.utils import Notice
+        self.Instance, self.Pool, self.Notice, self.client_key = Instance, Pool, Notice, CommonAiohttpAppKeys.CLIENT_SESSION
+        self.pool_config = PoolConfig(
+            name='standard', cloud='gcp', worker_type='standard', worker_cores=16, worker_local_ssd_data_disk=True,
+            worker_external_ssd_data_disk_size_gb=0, standing_worker_cores=16, boot_disk_size_gb=10, min_instances=0, max_instances=10,
+            max_live_instances=10, preemptible=True, max_new_instances_per_autoscaler_loop=1, autoscaler_loop_period_secs=15,
+            worker_max_idle_time_secs=30, standing_worker_max_idle_time_secs=30, job_queue_scheduling_window_secs=150, label='')
+        self.how = ('PoolScheduler.compute_fair_share of a real Pool (real Instance workers added through Pool.add_instance); '
+                    'real gear Database over minisql executes the demand query')
+
+    class _NoTasks:
+        """BackgroundTaskManager stand-in: the monitoring / scheduling loops of Pool.__init__ are not started"""
+        def ensure_future(self, coro):
+            coro.close()
+
+    class _NoManager:
+        regions = ['us-central1']
+
+        def register_instance_collection(self, inst_coll):
+            pass
+
+    class _Region:
+        def region_for(self, location):
+            return 'us-central1'
+
+    def _pool(self, c):
+        app = {'db': self.db, 'scheduler_state_changed': self.Notice(), self.client_key: None}
+        pool = self.Pool(app, self.db, self._NoManager(), None, 'batch-worker-verif-', self.pool_config, None, self._NoTasks())
+        for k, (free, cores, state, failed) in enumerate(self._workers(c)):
+            inst = self.Instance(app, pool, f'w{k}', state, cores, free, 0, failed, k, '10.0.0.1', 0, 'us-central1-a', 'n1-standard-16', True,
+                                 self._Region())
+            pool.add_instance(inst)
+        return pool
 
     @staticmethod
-    def _by_ast(repo):
-        import sortedcontainers
-        import typing
-        src = loader.source_of(POOL_PY, repo)
-        tree = ast.parse(src)
-        for node in ast.walk(tree):
-            if isinstance(node, ast.ClassDef) and node.name == 'PoolScheduler':
-                for f in node.body:
-                    if isinstance(f, ast.AsyncFunctionDef) and f.name == '_compute_fair_share':
-                        ns = {'sortedcontainers': sortedcontainers, 'Dict': typing.Dict, 'List': typing.List, 'Optional': typing.Optional,
-                              'Tuple': typing.Tuple, 'Any': typing.Any}
-                        exec(compile(ast.Module(body=[f], type_ignores=[]), os.path.join(repo, POOL_PY), 'exec'), ns)
+    def _workers(c):
+        """[free_cores_mcpu, cores_mcpu, state, failed_request_count]; a case without workers has one healthy worker holding `free`"""
+        if c.get('workers') is not None:
+            return [list(w) for w in c['workers']]
+        return [[c['free'], max(c['free'], 16000), 'active', 0]]
 
-                        class Bare:
-                            pass
-                        return ns['_compute_fair_share'], Bare()
-        raise RuntimeError('PoolScheduler._compute_fair_share not found in pool.py')
+    def _free(self, c):
+        """the pool's free cores: sum over the healthy (active, at most one failed request) workers, negative workers included"""
+        return sum(w[0] for w in self._workers(c) if w[2] == 'active' and w[3] <= 1)
 
     def extra_coverage(self):
         return {'implementation_reached_by': self.how}
@@ -183,9 +195,11 @@ class C11(Prop):
         self.mdb.execute('DELETE FROM user_inst_coll_resources')
         self.mdb.load_rows('user_inst_coll_resources', rows)
 
+        pool = self._pool(c)
+
         async def go():
             import asyncio
-            res = await self.fn(self.obj, c['free'])
+            res = await pool.scheduler.compute_fair_share()
             await asyncio.sleep(0)
             return res
         return self.loop.run_until_complete(go())
@@ -205,14 +219,14 @@ class C11(Prop):
         return [' '.join(out)]
 
     def model_lines(self, c):
-        return [' '.join(map(str, [c['free']] + [x for rd in self._users(c) for x in rd]))]
+        return [' '.join(map(str, [self._free(c)] + [x for rd in self._users(c) for x in rd]))]
 
     # ---- the property, on the real output ------------------------------------------------------------
     def oracle(self, c, out):
         if out[0].startswith('IMPL-EXC'):
             return out[0]
         users = self._users(c)
-        free = c['free']
+        free = self._free(c)
         if any(r < 0 or d < 0 for r, d in users):
             return None   # inconsistent counters: outside the property's domain
         if not users:
@@ -271,7 +285,7 @@ class C11(Prop):
         k = rng.choice([10, 20, 30, 40])
         return rng.choice([0, rng.randint(0, 2 ** k), 2 ** k, 2 ** k - 1, 2 ** k + 1])
 
-    def _free(self, rng, users):
+    def _gen_free(self, rng, users):
         n = len(users)
         demand = sum(d for _, d in users)
         m = rng.random()
@@ -317,11 +331,32 @@ class C11(Prop):
                     else:
                         r = r0 + d0        # starts where another one is full
                 users.append([r, d])
-            free, _mode = self._free(rng, [tuple(u) for u in users])
+            free, _mode = self._gen_free(rng, [tuple(u) for u in users])
             c = {'free': free, 'users': users}
             if rng.random() < 0.8:
                 c['rows'], c['other'] = self._shard(rng, users)
+            if rng.random() < 0.75:
+                c['workers'] = self._gen_workers(rng, free)
             yield c
+
+    @staticmethod
+    def _gen_workers(rng, free):
+        """workers whose free cores add up to `free`: some oversubscribed (negative free cores) next to others with room;
+        sometimes unhealthy workers (not active, or more than one failed request) that must not be counted"""
+        k = rng.choice([1, 2, 2, 3, 4, 6])
+        m = max(abs(free), 16000)
+        parts = []
+        for _ in range(k - 1):
+            t = rng.random()
+            parts.append(-rng.choice([250, 1000, 2000, rng.randint(1, m)]) if t < 0.4 else rng.randint(0, m) if t < 0.8 else 0)
+        parts.append(free - sum(parts))
+        rng.shuffle(parts)
+        ws = [[f, max(16000, f), 'active', rng.choice([0, 0, 0, 1])] for f in parts]
+        if rng.random() < 0.2:
+            for _ in range(rng.randint(1, 2)):
+                state, failed = rng.choice([('pending', 0), ('inactive', 0), ('active', 2), ('active', 5), ('deleted', 0)])
+                ws.insert(rng.randrange(len(ws) + 1), [rng.choice([16000, 8000, 250, -1000]), 16000, state, failed])
+        return ws
 
     @staticmethod
     def _split(rng, total, k, spread):
@@ -389,7 +424,7 @@ class C11(Prop):
 
     def classify(self, c, out):
         users = self._users(c)
-        free = c['free']
+        free = self._free(c)
         n = len(users)
         demand = sum(d for _, d in users)
         tags = [f'users={n if n <= 4 else "5-8" if n <= 8 else "9-12"}']
@@ -423,15 +458,21 @@ class C11(Prop):
             tags.append('negative-cores-shard')
         if c.get('other'):
             tags.append('rows-of-other-inst-colls')
+        ws = self._workers(c)
+        tags.append('workers=1' if len(ws) == 1 else 'workers>1')
+        if any(w[0] < 0 and w[2] == 'active' and w[3] <= 1 for w in ws):
+            tags.append('oversubscribed-worker(free<0)')
+        if any(not (w[2] == 'active' and w[3] <= 1) for w in ws):
+            tags.append('unhealthy-worker-present')
         nontrivial = free > 0 and n >= 2 and demand > free
         return (json.dumps(c, sort_keys=True) if nontrivial else None, tags)
 
     def finding_key(self, c, msg):
-        return json.dumps({'free': c['free'], 'users': sorted(map(list, self._users(c))), 'rows': c.get('rows'), 'other': c.get('other')},
-                          sort_keys=True)
+        return json.dumps({'free': self._free(c), 'users': sorted(map(list, self._users(c))), 'rows': c.get('rows'), 'other': c.get('other'),
+                           'workers': c.get('workers')}, sort_keys=True)
 
     def shrink(self, c, fails):
-        cur = {'free': c['free'], 'users': [list(u) for u in self._users(c)]}
+        cur = {'free': self._free(c), 'users': [list(u) for u in self._users(c)]}
         if not fails(cur):
             # the failure depends on how the counters are sharded: shrink users / rows, keep the shards
             return self._shrink_sharded(c, fails)
@@ -474,9 +515,20 @@ class C11(Prop):
             d['rows'] = [[r[0] - (r[0] > i)] + r[1:] for r in d['rows'] if r[0] != i]
             d['other'] = [[r[0] - (r[0] > i)] + r[1:] for r in (d.get('other') or []) if r[0] != i]
             return d
+        if cur.get('rows') is None:
+            cur['rows'] = self._shards(cur)
         changed = True
         while changed:
             changed = False
+            ws = cur.get('workers')
+            if ws and len(ws) > 1:
+                for i in range(len(ws)):
+                    d = dict(cur, workers=ws[:i] + ws[i + 1:])
+                    if fails(d):
+                        cur, changed = d, True
+                        break
+                if changed:
+                    continue
             if cur.get('other'):
                 d = dict(cur, other=[])
                 if fails(d):
@@ -504,7 +556,7 @@ class C11(Prop):
                     break
             if changed:
                 continue
-            for f in (cur['free'] // 2, cur['free'] - 1):
+            for f in ((cur['free'] // 2, cur['free'] - 1) if cur.get('workers') is None else ()):
                 if 0 < f < cur['free']:
                     d = dict(cur, free=f)
                     if fails(d):
